@@ -30,7 +30,7 @@ type Op struct {
 	Client  int    `json:",omitempty"`
 	Method  string `json:",omitempty"`
 	Cookie  string `json:",omitempty"` // own | none | forged | other | dead
-	Token   string `json:",omitempty"` // same (as cookie) | none | forged | other | dead
+	Token   string `json:",omitempty"` // same (as cookie) | none | forged | other | dead | own (the client's token even if the cookie sent differs)
 	Pick    int    `json:",omitempty"`
 	Scheme  string `json:",omitempty"`
 	Origin  string `json:",omitempty"`
@@ -213,6 +213,8 @@ func check(c Case) vk.Verdict {
 			if len(dead) > 0 {
 				sentTok = dead[(op.Pick+1)%len(dead)]
 			}
+		case "own":
+			sentTok = cl.cookie // the client's live token through the extractor, whatever cookie goes with it (none, forged, ...)
 		}
 		if c.Extractor == "cookie" {
 			sentTok = cookieTok
@@ -458,7 +460,7 @@ func genCase(t *rapid.T) Case {
 			op := Op{Kind: "req", Client: rapid.IntRange(0, 1).Draw(t, "client"),
 				Method: rapid.SampledFrom([]string{"GET", "GET", "HEAD", "POST", "POST", "POST", "PUT", "DELETE"}).Draw(t, "method"),
 				Cookie: rapid.SampledFrom([]string{"own", "own", "own", "own", "none", "forged", "other", "dead"}).Draw(t, "cookie"),
-				Token:  rapid.SampledFrom([]string{"same", "same", "same", "same", "none", "forged", "other", "dead"}).Draw(t, "token"),
+				Token:  rapid.SampledFrom([]string{"same", "same", "same", "same", "none", "forged", "other", "dead", "own", "own"}).Draw(t, "token"),
 				Pick:   rapid.IntRange(0, 5).Draw(t, "pick"), Scheme: rapid.SampledFrom([]string{"http", "https"}).Draw(t, "scheme")}
 			op.Origin = strings.ReplaceAll(rapid.SampledFrom(origins).Draw(t, "origin"), "SCHEME", op.Scheme)
 			op.Referer = strings.ReplaceAll(rapid.SampledFrom(referers).Draw(t, "referer"), "SCHEME", op.Scheme)
